@@ -115,6 +115,36 @@ pub fn cases_cmd(args: &[String]) {
                 }
             }
         }
+        "repeat" => {
+            // C06: the same case several times in one process (fresh solver each
+            // time); the driver additionally runs the file in separate processes
+            let reps: u64 = get_arg(args, "--reps").map(|s| s.parse().unwrap()).unwrap_or(4);
+            for prof in rest.split(',') {
+                let g = GenParams::profile(prof);
+                let mut rng = Rng::new(seed ^ hash(prof) ^ 0xDE7E);
+                for _ in 0..n {
+                    let mut r = rng.fork();
+                    let (u, p) = gen_universe(&mut r, &g);
+                    let gid = id();
+                    for k in 0..reps {
+                        emit(
+                            &mut out,
+                            &Case {
+                                id: if k == 0 { gid } else { id() },
+                                profile: format!("{prof}+rep{k}"),
+                                u: u.clone(),
+                                ps: vec![p.clone()],
+                                cfg: Cfg {
+                                    group: gid,
+                                    same: if k == 0 { String::new() } else { "exact".into() },
+                                    ..base_cfg.clone()
+                                },
+                            },
+                        );
+                    }
+                }
+            }
+        }
         "history" => {
             for prof in rest.split(',') {
                 let g = GenParams::profile(prof);
